@@ -8,3 +8,9 @@ Open Scope string_scope.
 Lemma draws_inside_partial :
   forallb (fun c => draws_inside_ok c || mem (c_name c) c13_known) class_table = true.
 Proof. vm_compute. reflexivity. Qed.
+
+Lemma record_ok :
+  forallb record_row_ok record_table = true /\
+  forallb todict_row_ok (filter is_params_row todict_table) = true /\
+  Nat.eqb (List.length (filter is_params_row todict_table)) 3 = true /\ Nat.eqb (List.length record_table) 2 = true.
+Proof. vm_compute. repeat split; reflexivity. Qed.
